@@ -8,6 +8,9 @@ use paseto_core::key::HasKey;
 use paseto_core::pae::{WriteBytes, pre_auth_encode};
 use paseto_core::version::Public;
 use rsa::pss::Signature;
+#[cfg(all(feature = "signing", paseto_verif))]
+use crate::verif::OsRng;
+#[cfg(not(paseto_verif))]
 #[cfg(feature = "signing")]
 use rsa::rand_core::OsRng;
 use rsa::traits::PublicKeyParts;
@@ -81,6 +84,7 @@ impl HasKey<paseto_core::version::Secret> for V1 {
 #[cfg(feature = "signing")]
 impl SecretKey {
     pub(crate) fn random() -> Result<Self, PasetoError> {
+        #[cfg(not(paseto_verif))]
         use rsa::rand_core::OsRng;
 
         rsa::pss::SigningKey::random(&mut OsRng, 2048)
